@@ -596,6 +596,35 @@ static void part_lookup(void) {
 				} else if (res == KSI_OK && r != NULL) vf_fail("lookup-by-string", "times %s: a string with time %d but ANOTHER imprint was answered with the file's record", name, q);
 				vf_outcome("lookup-by-string:%s", first < 0 ? "time-absent" : i == 0 ? "genuine" : "other-imprint");
 			}
+			/* by record: a query record (time, imprint) finds the file's record with that time AND that imprint, wherever it stands
+			 * (also behind another record of the same time); a query with a file time and a foreign imprint finds nothing */
+			for (q = 0; q < len + 6; q++) {
+				unsigned char h[RH_MAX_IMPRINT];
+				size_t hl;
+				uint64_t qt;
+				KSI_PublicationRecord *in = NULL, *r = NULL;
+				KSI_PublicationData *pd = NULL;
+				KSI_Integer *ti = NULL;
+				KSI_DataHash *dh = NULL;
+				int res, k, want = -1;
+				if (q < len) { qt = f.pub_time[q]; memcpy(h, f.pub_hash[q], f.pub_hash_len[q]); hl = f.pub_hash_len[q]; }
+				else { qt = (uint64_t)(q - len + 1); hl = ref_fake_imprint(RH_SHA256, 900u + (unsigned)q, h); }
+				for (k = 0; k < len; k++) if (f.pub_time[k] == qt && f.pub_hash_len[k] == hl && memcmp(f.pub_hash[k], h, hl) == 0) { want = k; break; }
+				if (KSI_PublicationRecord_new(ctx, &in) != KSI_OK || KSI_PublicationData_new(ctx, &pd) != KSI_OK || KSI_Integer_new(ctx, qt, &ti) != KSI_OK
+						|| KSI_DataHash_fromImprint(ctx, h, hl, &dh) != KSI_OK) vf_harness_error("query record");
+				KSI_PublicationData_setTime(pd, ti); KSI_PublicationData_setImprint(pd, dh); KSI_PublicationRecord_setPublishedData(in, pd);
+				res = KSI_PublicationsFile_findPublication(pf, in, &r);
+				vf_count("impl_calls", 1);
+				if (res != KSI_OK || (r != NULL) != (want >= 0)) vf_fail("find-by-record", "times %s: query (time %llu, imprint of %s): res 0x%x found=%d expected=%d", name, (unsigned long long)qt, q < len ? "a record of the file" : "no record", res, r != NULL, want >= 0);
+				else if (r != NULL) {
+					KSI_PublicationData *od = NULL; KSI_Integer *ot = NULL; KSI_DataHash *oh = NULL;
+					KSI_PublicationRecord_getPublishedData(r, &od); KSI_PublicationData_getTime(od, &ot); KSI_PublicationData_getImprint(od, &oh);
+					if (KSI_Integer_getUInt64(ot) != qt || !ku_hash_eq(oh, h, hl)) vf_fail("find-by-record", "times %s: query (time %llu) answered with another record", name, (unsigned long long)qt);
+				}
+				vf_outcome("find-by-record:%s", want >= 0 ? (want < q && q < len ? "found-earlier-twin" : "found") : "absent");
+				KSI_PublicationRecord_free(r);
+				KSI_PublicationRecord_free(in);
+			}
 			/* certificate ids: present, absent, prefix, extended */
 			{
 				static const int LENS[] = {4, 4, 4, 3, 5};
